@@ -224,6 +224,23 @@ def _add_record_cases(seed, tier):
                     yield {"self": c2, "record": _rec(s), "case_sensitive": cs, "merge": merge}
 
 
+@domain("C05.add_record_then_expand")
+def _add_then_expand(seed, tier):
+    rng = random.Random(seed + 2)
+    fresh_specs = [("zz", "http://zz/", [], [], None), ("new", "http://n/", ["nw"], ["http://n2/"], None), ("", "http://e/", [], [], None)]
+    for c in worlds.converters(25 if tier == "quick" else 150, seed):
+        spec0 = worlds.describe_converter(c)
+        names = worlds.prefix_pool(c)
+        for s in list(_overlapping_specs(c, rng, 3)) + fresh_specs:
+            for p in rng.sample(names, min(2, len(names))) + [s[0]] + list(s[2][:1]):
+                c2 = worlds.make_converter(spec0["records"], spec0["delimiter"])
+                try:
+                    rec = _rec(s)
+                except Exception:
+                    continue
+                yield {"conv": c2, "record": rec, "p": p, "x": rng.choice(["1", ""])}
+
+
 @domain("api.Converter.add_prefix")
 def _add_prefix_cases(seed, tier):
     rng = random.Random(seed)
